@@ -45,7 +45,7 @@ def mk(rng, lens, ca, nd, citem, others=None, bare=False, fam=None):
             else:
                 items.append(others if others is not None else other_item(rng, shapes[0][ax]))
         # sometimes leave trailing axes out
-        if rng.random() < 0.3:
+        if others is None and rng.random() < 0.3:
             keep = max(ca + 1, rng.randint(1, nd))
             items = items[:keep]
     return {"shapes": shapes, "ca": ca, "items": items, "bare": bare and ca == 0,
@@ -77,6 +77,14 @@ def generate(rng, tier):
                     if tier == "quick" and rng.random() < 0.5:
                         continue
                     yield mk(rng, lens, ca, nd, C.sl(a, b), bare=(nd == 1 and rng.random() < 0.5))
+    # every other axis indexed by an integer (several axes dropped in front of the common axis):
+    # the new common axis must move down by their number
+    for lens in ([[2, 1, 3], [1, 2], [3]] if tier == "quick" else [[2, 1, 3], [1, 2], [3], [1, 1, 1, 2], [2, 2]]):
+        L = sum(lens)
+        for ca, nd in [(2, 3), (1, 3), (2, 4), (3, 4), (0, 3)]:
+            for citem in [C.sl(), C.sl(1, None), C.sl(None, -1), C.sl(1, L - 1), C.sl(-2, None)]:
+                for other in (0, -1):
+                    yield mk(rng, lens, ca, nd, citem, others=other)
     n_random = 600 if tier == "quick" else 60000
     for _ in range(n_random):
         n = rng.randint(1, 4)
